@@ -337,3 +337,22 @@ def tracecfg_legs(v, acc, timeout=600):
     for r in recs:
         if r.get("kind") == "mismatch":
             v.fail("tracecfg-replay", {"why": r["why"], "spec": r["spec"]})
+
+
+def tables_leg(v, acc, timeout=600):
+    """The tokenizer's tables as data (V2TokTables): every list marker / every one- and two-letter word, every interchangeable
+    spelling, every rewritten rune -- the spec's pinned tables against the real header(), cleanupToken() and rune mapping."""
+    gen = tlc_require_ok(tlc("V2TokTables", "V2TokTables.cfg", timeout=timeout), "V2TokTables"); acc.add_tlc(gen, "V2TokTables.cfg")
+    out = os.path.join(sub("out"), "tables.ndjson")
+    if os.path.exists(out):
+        os.remove(out)
+    rc, txt, _ = go_overlay_test("v2", ["common/util_test.go", "v2/tok_driver_test.go", "v2/tables_driver_test.go"], "^TestVerifTablesReplay$", timeout=timeout,
+                                 env={"VERIF_IN": gen.outpath, "VERIF_OUT": out})
+    recs = read_ndjson(out)
+    summ = [r for r in recs if r.get("kind") == "summary"]
+    if vlib.build_failed(txt) or not summ or summ[0]["vectors"] == 0:
+        raise vlib.Inconclusive("tables replay driver failed:\n" + txt[-2500:])
+    acc.evaluations += summ[0]["vectors"]; acc.extra["tables_replay"] = summ[0]
+    for r in recs:
+        if r.get("kind") == "mismatch":
+            v.fail("tables-replay", {"why": r["why"]})
